@@ -81,7 +81,15 @@ async def run(ctx, quick=400, thorough=8000):
         st.count("norm-model-lists")
         if ans != exp:
             ctx.disagree("normalise:model", {"paths": paths}, ans, exp)
-    nimpl = n // 4
+
+
+async def oracle(ctx, quick=100, thorough=2000):
+    """Implementation only: the same request with raw (permuted, duplicated) and with normalised
+    path lists on equal fresh workflows must give the same answer and the same database."""
+    from common import Finding
+
+    nimpl = quick if ctx.tier == "quick" else thorough
+    st = ctx.stats
     for i in range(nimpl):
         r = ctx.rng("normcorr", "impl", i)
         kind = r.choice(["define", "define", "static", "amend"])
@@ -95,5 +103,9 @@ async def run(ctx, quick=400, thorough=8000):
                 nontrivial=any(lists[k] != norm[k] for k in lists))
         st.count(f"norm-impl:{kind}:{'accepted' if a[0].startswith('ok') else 'rejected'}")
         if a != b:
-            ctx.disagree("normalise:implementation", {"request": kind, "raw": lists, "normalised": norm},
-                         f"{b[0]} (normalised lists)", f"{a[0]} (raw lists)")
+            ctx.finding(Finding(ctx.pid, f"request-depends-on-path-list-order:{kind}",
+                                f"{kind} with the lists {lists} answers '{a[0][:120]}', with the same lists sorted and "
+                                f"without duplicates '{b[0][:120]}'" + ("" if a[0] != b[0] else " (different databases)"),
+                                {"request": kind, "raw": lists, "normalised": norm, "raw_answer": a[0],
+                                 "normalised_answer": b[0],
+                                 "how": "harness/normcorr.py _apply(kind, lists) on a fresh in-memory Workflow"}))
